@@ -5,7 +5,7 @@ CONSTANTS
   MaxSteps = 5
   ReleaseOnFailedCtor = TRUE
   RollbackKeepsLock = TRUE
-  AllowFailedRollback = FALSE
+  FailedRollbackKeepsLock = TRUE
   AtomicAcquire = TRUE
 CONSTRAINT Bounded
 INVARIANT TypeOK
